@@ -214,7 +214,11 @@ fn run_part(run: &mut Run) {
     match run.part.as_str() {
         "shapes" => {
             run.sweep_vec("shapes-rgb565", "shape catalogue (rect, circle, ellipse, rounded rect equal+unequal radii, line, arc, sector) x S(W) at position (-2,-3)",
-                || product(&shape_catalogue(t, (-2, -3)), &styles(w)), check_prim::<Rgb565>);
+                || {
+                    let mut st = styles(w);
+                    st.extend(styles_same_color(3));
+                    product(&shape_catalogue(t, (-2, -3)), &st)
+                }, check_prim::<Rgb565>);
             run.sweep_vec("shapes-rgb565-pos2", "reduced shape catalogue x S(3) at position (-20,-17) (fully negative)",
                 || product(&shape_catalogue(false, (-20, -17)), &styles(3)), check_prim::<Rgb565>);
             run.sweep_vec("shapes-binary", "shape catalogue x S(2) in BinaryColor", || product(&shape_catalogue(false, (-2, -3)), &styles(2)), check_prim::<BinaryColor>);
